@@ -127,6 +127,15 @@ def enum_descs(tier):
         enum("E2o", 2, [tag("A", 0), tag("B", 1), tag("C", 2), tag("D", 3), tother("O")]),
         enum("E8lead", 8, [trange("R", 3, 9), tag("A", 1)]),
         enum("E8leadt", 8, [trange("R", 3, 9, [tag("R4", 4)]), tag("A", 1)]),
+        # open enums whose declared values run contiguously from k > 0 up to 2^w - 1
+        enum("E3hi", 3, [tag("A", 1), trange("B", 2, 7, [tag("X", 3)]), tother("U")]),
+        enum("E4hi", 4, [tag("Y", 14), tag("Z", 15), tother("U")]),
+        enum("E12hi", 12, [trange("R", 0x800, 0xfff), tother("U")]),
+        enum("E8hi", 8, [tag("Y", 254), tag("Z", 255), tother("U")]),
+        # closed, contiguous from 0 but stopping short of the maximum; contiguous with a hole
+        enum("E3lo", 3, [tag("A", 0), tag("B", 1), tag("C", 2)]),
+        enum("E4hole", 4, [trange("R", 0, 6), trange("S", 8, 15)]),
+        enum("E4holeo", 4, [trange("R", 0, 6), trange("S", 8, 15), tother("U")]),
     ]
     for e in more:
         w = e["width"]
@@ -240,6 +249,11 @@ def optional_descs(tier):
                     name="opt_shared_flag"))
     out.append(desc("little", [packet("P", [scalar("c", 1), scalar("k", 7), scalar("a", 64, cond=("c", 1)), scalar("t", 8)])],
                     name="opt_64"))
+    out.append(desc("little", [packet("P", [scalar("c", 1), reserved(7), scalar("a", 8, cond=("c", 1)), scalar("b", 16, cond=("c", 1))])],
+                    name="opt_same_one"))
+    out.append(desc("little", [E8, packet("P", [scalar("k", 3), scalar("c", 1), reserved(4), scalar("a", 8, cond=("c", 0)),
+                                                typedef("e", "E8", cond=("c", 0)), scalar("d", 24, cond=("c", 0))])],
+                    name="opt_same_zero"))
     out.append(desc("little", [E8, packet("P", [scalar("x", 3), scalar("c", 1), scalar("y", 4), typedef("e", "E8", cond=("c", 1)),
                                                 size("_payload_", 8), payload()])], name="opt_then_payload"))
     out.append(desc("little", [struct("S", [scalar("f", 1), reserved(7), scalar("v", 16, cond=("f", 1))]),
@@ -319,6 +333,20 @@ def inherit_descs(tier):
                                packet("P", [typedef("b", "Base"), typedef("d", "D1")])], name="inh_struct"))
     out.append(desc("little", [E8, packet("Parent", [scalar("c", 1), reserved(7), typedef("e", "E8", cond=("c", 1)), payload()]),
                                packet("Child", [scalar("x", 8)], parent="Parent")], name="inh_optional_parent"))
+    # children told apart by size next to a sibling that has its own payload, and a grandchild below it
+    out.append(desc("little", [packet("Parent", [scalar("a", 8), payload()]),
+                               packet("Child1", [scalar("x", 8)], parent="Parent", cons=[cons("a", 1)]),
+                               packet("Child2", [scalar("x", 16)], parent="Parent", cons=[cons("a", 1)]),
+                               packet("Child3", [scalar("x", 8), payload()], parent="Parent", cons=[cons("a", 2)]),
+                               packet("GrandChild", [scalar("y", 16)], parent="Child3", cons=[cons("x", 7)])],
+                    name="inh_size_and_payload_sibling"))
+    # optional fields of non-native width under a sized payload / inside a sized array of structs
+    out.append(desc("little", [packet("Parent", [size("_payload_", 8), payload(), scalar("trailer", 8)]),
+                               packet("Child", [scalar("c", 1), reserved(7), scalar("x", 24, cond=("c", 1))], parent="Parent")],
+                    name="inh_opt24_in_sized_payload"))
+    out.append(desc("little", [E24, struct("S", [scalar("f", 1), scalar("g", 1), reserved(6), scalar("v", 40, cond=("f", 1)),
+                                                 typedef("e", "E24", cond=("g", 0))]),
+                               packet("P", [size("x", 8), array("x", "S"), scalar("t", 8)])], name="opt40_in_sized_array"))
     return out
 
 
